@@ -108,16 +108,20 @@ Definition reload (s : state) : state := map (fun p => (fst p, persist (snd p)))
    background writer (which decide whether a record is "on disk", "buffered" or both when the
    next operation arrives) are deliberately NOT operations: the property is indifferent to
    them, so the harness places them freely between operations. *)
-Inductive op := OWrite (k : key) (r : rec) | ODelete (k : key) | OReload | OTick.
+Inductive op := OWrite (k : key) (r : rec) | ODelete (k : key) | OReload | OTick | OWin (site : N).
 (* [OTick]: the background writer flushed its buffer here (observed by the harness: it waited
    longer than the write interval).  A no-op for the state; it only lets the case checker say
    which operations fell into one write interval when it classifies a violation. *)
+(* [OWin site]: from here to the next tick/reload the operations ran while a flush of the swamp
+   was held (by the harness, through the hook points) at site 1 = before it collects its batch,
+   2 = batch taken off the buffer but not yet encoded, 3 = batch written.  A no-op for the state. *)
 Definition step (s : state) (o : op) : state :=
   match o with
   | OWrite k r => (k, r) :: remove_key k s
   | ODelete k => remove_key k s
   | OReload => reload s
   | OTick => s
+  | OWin _ => s
   end.
 Definition run (h : list op) : state := fold_left step h [].
 
@@ -179,12 +183,32 @@ Definition lost_tombstone_stage (k : key) (ops : list op) : N :=
       let '(live, disk, stage) := st in
       match o with
       | OTick | OReload => (live, live, 0%N)
+      | OWin _ => st
       | OWrite k' _ => if N.eqb k k' then (true, disk, if N.eqb stage 1 || N.eqb stage 3 then 2%N else stage) else st
       | ODelete k' =>
           if N.eqb k k' then
             (false, disk, if live && disk && N.eqb stage 0 then 1%N else if live && N.eqb stage 2 then 3%N else stage)
           else st
       end) ops (false, false, 0%N) in
+  stage.
+
+(* Classifier for a second known resurrection class: a key that is not on disk is created (its
+   first write sits in the buffer), the flush takes the batch off the buffer and is held before
+   encoding it (window 2), the key is deleted (deleteHandler: no file pointer => "never written",
+   nothing to do), the flush then encodes the still-live object.  stage 1 = created and buffered,
+   2 = deleted inside the window. *)
+Definition inflight_delete_stage (k : key) (ops : list op) : N :=
+  let '(_, _, _, stage) :=
+    fold_left (fun (st : bool * bool * bool * N) (o : op) =>
+      let '(live, disk, win, stage) := st in
+      match o with
+      | OTick | OReload => (live, live, false, 0%N)
+      | OWin site => (live, disk, N.eqb site 2, stage)
+      | OWrite k' _ => if N.eqb k k' then (true, disk, win, if negb disk && negb win then 1%N else stage) else st
+      | ODelete k' =>
+          if N.eqb k k' then (false, disk, win, if win && live && N.eqb stage 1 then 2%N else if win then stage else 0%N)
+          else st
+      end) ops (false, false, false, 0%N) in
   stage.
 
 Fixpoint first_nz (l : list N) : N :=
@@ -213,16 +237,18 @@ Definition chk (c : hcase) : N :=
   | ReloadCase fixed ops before after ib ia =>
       let o := first_nz (zip_verdicts before after) in
       if negb (N.eqb o 0) then
-        (* code 8: every existence change of the case is a resurrection of a key that was
-           deleted, re-created and deleted again inside one write interval *)
-        (if N.eqb o 5 &&
-            forallb (fun ba => match snd (fst ba), snd (snd ba) with
-                               | None, Some _ => N.eqb (lost_tombstone_stage (fst (fst ba)) ops) 3
-                               | None, None => true
-                               | Some wb, Some wa => view_eqb wb wa
-                               | Some _, None => false
-                               end) (combine before after)
-         then 8 else o)
+        (* codes 8 / 9: every existence change of the case is a resurrection of one of the two
+           classified kinds (8: all of the delete/re-create/delete kind) *)
+        (let explained (cls : key -> bool) :=
+           forallb (fun ba => match snd (fst ba), snd (snd ba) with
+                              | None, Some _ => cls (fst (fst ba))
+                              | None, None => true
+                              | Some wb, Some wa => view_eqb wb wa
+                              | Some _, None => false
+                              end) (combine before after) in
+         if N.eqb o 5 && explained (fun k => N.eqb (lost_tombstone_stage k ops) 3) then 8
+         else if N.eqb o 5 && explained (fun k => N.eqb (lost_tombstone_stage k ops) 3 || N.eqb (inflight_delete_stage k ops) 2) then 9
+         else o)
       else if negb (list_eqb kv_eqb ib ia) then 6
       else
         (* replay: the history leaves [before]; the model's reload of it is [after] *)
